@@ -89,7 +89,9 @@ func propC04(c *ctx) error {
 		hdr        string // with %s for the object
 		idx, item  string
 	}{{"%s", "", ""}, {"i : %s", "i", ""}, {"i, x : %s", "i", "x"}, {", x : %s", "", "x"}, {"_, x : %s", "_", "x"}, {"  i ,x:%s  ", "i", "x"}, {"i, x : (%s)", "i", "x"}, {"i, x : w.%s", "i", "x"}}
-	following := []struct{ sib, sep string }{{"", ""}, {" ", " "}, {"\n  ", "\n  "}, {"<b>n</b>", ""}, {"txt", ""}, {" <b>n</b>", " "}, {"<!-- c -->", ""}}
+	following := []struct{ sib, sep string }{{"", ""}, {" ", " "}, {"\n  ", "\n  "}, {"<b>n</b>", ""}, {"txt", ""}, {" <b>n</b>", " "}, {"<!-- c -->", ""},
+		// blank text is blank in the Unicode sense
+		{"\u3000", "\u3000"}, {"\f", "\f"}, {"\u00a0\n", "\u00a0\n"}, {"\v ", "\v "}, {"\u0085", "\u0085"}, {"\u2028<b>n</b>", "\u2028"}}
 	maxLen := 3
 	if !c.quick() {
 		maxLen = 6
